@@ -687,7 +687,7 @@ func edgeOpen0(ifi *ssa.If, b, pred *ssa.BasicBlock, branch bool, g Guard, resol
 		if cb, ok := evalCondFrom(cond, b, pred); ok {
 			return cb == branch // e.g. the first test of a range loop over a non-empty literal
 		}
-		if g != nil && (g(cond, branch) || predEstablishes(cond, branch, g, 0)) {
+		if g != nil && (g(cond, branch) || predEstablishes(cond, branch, g, 0) || errNilEstablishes(cond, branch, g)) {
 			return false // edge establishes G (directly, or through a first-party predicate helper): cut
 		}
 		ev, eb, ok := phiEdgeFrom(cond, b, pred, branch)
@@ -1435,4 +1435,74 @@ func localVal(v ssa.Value) ssa.Value {
 		v = strip(sts[0].Val)
 	}
 	return v
+}
+
+// errNilEstablishes: cond compares the error result of a first-party helper with nil, the edge is
+// the one on which it is nil, and the helper returns a nil error only when G holds (every return
+// whose error is nil lies behind an edge establishing G, with the helper's parameters resolved to
+// this call's arguments): `if err := conf.validate(); err != nil { fatal }`.
+func errNilEstablishes(cond ssa.Value, branch bool, g Guard) bool {
+	core, neg := normCond(cond)
+	bo, ok := core.(*ssa.BinOp)
+	if !ok || (bo.Op != token.EQL && bo.Op != token.NEQ) {
+		return false
+	}
+	var ev ssa.Value
+	if isNil(bo.Y) {
+		ev = bo.X
+	} else if isNil(bo.X) {
+		ev = bo.Y
+	} else {
+		return false
+	}
+	nilOnThisEdge := ((bo.Op == token.EQL) != neg) == branch
+	if !nilOnThisEdge {
+		return false
+	}
+	ev = rv(ev)
+	idx := 0
+	var call *ssa.Call
+	switch x := ev.(type) {
+	case *ssa.Call:
+		call = x
+	case *ssa.Extract:
+		call, _ = x.Tuple.(*ssa.Call)
+		idx = x.Index
+	}
+	if call == nil {
+		return false
+	}
+	callee := call.Call.StaticCallee()
+	if callee == nil || !IsFirstParty(callee) || callee.Blocks == nil || callEstDepth > 2 {
+		return false
+	}
+	res := callee.Signature.Results()
+	if idx >= res.Len() || res.At(idx).Type().String() != "error" {
+		return false
+	}
+	callEstDepth++
+	defer func() { callEstDepth-- }()
+	defer pushCallResolver(call, callee)()
+	some := false
+	for _, r := range returnsOf(callee) {
+		if idx >= len(r.Results) {
+			return false
+		}
+		v := unspill(r.Results[idx])
+		if !isNil(strip(v)) {
+			if _, isC := strip(v).(*ssa.Const); isC {
+				continue
+			}
+			// a non-constant error (err from a callee): may be nil
+			if ec, isCall := strip(v).(*ssa.Call); isCall && (calleeName(ec) == "fmt.Errorf" || calleeName(ec) == "errors.New") {
+				continue
+			}
+			return false
+		}
+		some = true
+		if reach, _ := reachAvoiding(callee, r.Block(), g); reach && reachInstrAvoiding(callee, r, g) {
+			return false
+		}
+	}
+	return some
 }
